@@ -455,6 +455,24 @@ static void artefact_case(World &W)
 		case 5: if (pk.size() > 1) { std::swap(pk[pi], pk[(pi + 1) % pk.size()]); damaged = true; what = "packets exchanged"; W.res.cnt["fault.art_reorder"]++; } break;
 		case 6: { size_t add = 1 + (size_t)fb % 300; for (size_t i = 0; i < add; i++) pk[pi].body.push_back((tmcg_openpgp_byte_t)(fc + i)); damaged = true; what = "body of packet " + std::to_string(pi) + " extended by " + std::to_string(add); W.res.cnt["fault.art_extend_reencoded"]++; break; }
 	}
+	// a key block recomposed from its own packets: the primary key first, then three to eight seeded picks from
+	// {key, user ID, certification, subkey, binding signature, subkey / key with unknown algorithm, user attribute stub}
+	if (art == 0 && p.get("recompose", 0) && pk.size() >= 3)
+	{
+		Rng er(derive((uint64_t)fa * 7919ULL + (uint64_t)fb * 131 + (uint64_t)fc, 78));
+		std::vector<Pkt> pool = pk, seq;
+		Pkt sub99, pub99, uat; bool have_sub = false;
+		for (size_t q = 0; q < pool.size(); q++) if (pool[q].tag == 14 && !have_sub) { sub99 = pool[q]; have_sub = true; }
+		if (!have_sub) { sub99 = pool[0]; sub99.tag = 14; }
+		if (sub99.body.size() > 5) sub99.body[5] = 99;
+		pub99 = pool[0]; if (pub99.body.size() > 5) pub99.body[5] = 99;
+		uat.tag = 17; uat.body.push_back(0x03); uat.body.push_back(0x01); uat.body.push_back(0x00); uat.body.push_back(0x00);
+		pool.push_back(sub99); pool.push_back(pub99); pool.push_back(uat);
+		seq.push_back(pk[0]);
+		size_t len = 3 + (size_t)er.below(6);
+		for (size_t q = 0; q < len; q++) seq.push_back(pool[(size_t)er.below(pool.size())]);
+		pk = seq; damaged = true; dmg = 8; what = "key block recomposed from its own packets"; W.res.cnt["fault.art_recomposed"]++;
+	}
 	// further seeded edits of the packet sequence (any packet copied to any place, dropped, exchanged with any
 	// other, a key packet given an unknown algorithm or version): packet orders no single edit produces
 	size_t nedits = (size_t)(p.get("edits", 0) % 5);
@@ -972,6 +990,7 @@ static Plan pgp_generate(uint64_t seed, const Tier &tier)
 		p.cfg["key"] = (int64_t)g.below(4); p.cfg["art"] = (int64_t)g.below(3); p.cfg["fc"] = (int64_t)g.below(256); p.cfg["fb"] = (int64_t)g.below(1 << 20);
 		p.cfg["armor"] = g.chance(1, 2) ? 0 : (!faults ? 1 : (int64_t)g.range(1, 7));
 		p.cfg["subkey"] = g.chance(1, 2); p.cfg["edits"] = (faults && g.chance(1, 3)) ? (int64_t)g.range(1, 4) : 0;
+		p.cfg["recompose"] = (faults && g.chance(1, 3)) ? 1 : 0;
 		p.cfg["fault"] = !faults ? 0 : (int64_t)g.below(7);
 	}
 	else if (kind == 1) { unsigned f = (unsigned)g.below(12); p.cfg["fault"] = !faults ? 0 : (c12 ? (g.chance(1, 2) ? 2 : 6) : (f < 4 ? 0 : (int64_t)(1 + (f - 4) % 6))); }
